@@ -87,7 +87,15 @@ class Reader:
     def read(self, f) -> ir.Module:
         """Read ir code from file f"""
         self.prepare_lexing(f)
-        module = self.parse_module()
+        try:
+            module = self.parse_module()
+        except (KeyError, TypeError, ValueError, NotImplementedError) as ex:
+            # The text is lexically fine, but does not describe valid
+            # IR-code (unknown type or value, operand type mismatch, ..)
+            self.error(f"Invalid IR-code: {type(ex).__name__} {ex}")
+        if self.undefined_values:
+            names = ", ".join(sorted(self.undefined_values))
+            self.error(f"Undefined values: {names}")
         return module
 
     def prepare_lexing(self, f):
